@@ -153,7 +153,7 @@ class TableEx(Extractor):
         s = self.seed
         if t == "self.x_points[0].Z<self.o_point.Z":
             return s["lower_first"]
-        if t == "nx_inter_sep==0":
+        if t in ("nx_inter_sep==0", "self.user_options.nx_inter_sep==0"):
             return s["connected"]
         if t == "self.psi_increasing":
             return True  # only scales the operands of two raising guards
